@@ -16,6 +16,13 @@ def jRefFeature (j : Json) : Except String RefFeature := do
   pure ⟨← jInt (← arg j "start"), ← jInt (← arg j "end"), ← jS (← arg j "strand"),
         ← jOpt (jList jS) (← arg j "attr")⟩
 
+/-- a reference record of any feature type: optional `"type"` (absent = `exon`); `ofType` = (type = "exon") -/
+def jRefRecord (j : Json) : Except String RefRecord := do
+  let t ← match j.getObjVal? "type" with
+    | .ok v => if v.isNull then pure "exon" else jStr v
+    | .error _ => pure "exon"
+  pure ⟨t = "exon", ← jRefFeature j⟩
+
 def jKey (j : Json) : Except String ExonKey := do
   let a ← j.getArr?
   if a.size = 4 then pure (← jS a[0]!, ← jInt a[1]!, ← jInt a[2]!, ← jS a[3]!)
@@ -47,8 +54,14 @@ def jDist (j : Json) : Except String IdDistributor := do
 
 def storageOf (j : Json) : Except String FeatureIdStorage := do
   let d ← jDist (← arg j "dist")
-  let feats ← jOpt (jList jRefFeature) (← arg j "genedb")
-  pure (FeatureIdStorage.init d feats (← jS (← arg j "chr")))
+  let recs ← jOpt (jList jRefRecord) (← arg j "genedb")
+  pure (FeatureIdStorage.initRecords d recs (← jS (← arg j "chr")))
+
+/-- the storage of the code before the repair (`featuretype=feature` in the region query) -/
+def storageOrigOf (j : Json) : Except String FeatureIdStorage := do
+  let d ← jDist (← arg j "dist")
+  let recs ← jOpt (jList jRefRecord) (← arg j "genedb")
+  pure (FeatureIdStorage.initOrig d recs (← jS (← arg j "chr")))
 
 def jTModel (j : Json) : Except String TModel := do
   let other ← jList (fun o => do
@@ -114,6 +127,9 @@ def ops : List (String × Handler) := [
   ("exon_history", fun j => do
       let st ← storageOf j
       pure (ofIdList (st.getIds (← jList jKey (← arg j "calls"))))),
+  ("exon_history_orig", fun j => do
+      let st ← storageOrigOf j
+      pure (ofIdList (st.getIds (← jList jKey (← arg j "calls"))))),
   ("exon_history_pinned", fun j => do
       let st ← storageOf j
       pure (ofIdList (getIdsWith FeatureIdStorage.getIdBuggy st (← jList jKey (← arg j "calls"))))),
@@ -121,8 +137,8 @@ def ops : List (String × Handler) := [
       let st ← storageOf j
       pure (ofIdList (getIdsWith FeatureIdStorage.getIdNoExclude st (← jList jKey (← arg j "calls"))))),
   ("dump", fun j => do
-      let feats ← jOpt (jList jRefFeature) (← arg j "genedb")
-      let st := FeatureIdStorage.init SimpleIDDistributor.init feats (← jS (← arg j "chr"))
+      let recs ← jOpt (jList jRefRecord) (← arg j "genedb")
+      let st := FeatureIdStorage.initRecords SimpleIDDistributor.init recs (← jS (← arg j "chr"))
       pure (Json.arr (dumpSeq ⟨st, [], []⟩ (← jList jDumpCall (← arg j "dumps"))).toArray))
 ]
 
